@@ -161,6 +161,22 @@ def check_alignment(cols, nseq):
                 den = hi - lo if mode == "all" else min(len(seqs[0]), len(seqs[1]))
                 if abs(get_sequence_identity(sub, mode) - m / den) > 1e-12:
                     return f"identity({mode}) on columns {lo}:{hi}"
+    # rows over different alphabets (each row is decoded with the alphabet of its own sequence)
+    if nseq >= 2:
+        from biotite.sequence import NucleotideSequence as _N, ProteinSequence as _P
+        pool = [_N("ACGTACGTAC"), _N("NYWSKMBDHV", ambiguous=True), _P("MKTWYVLIFE")]
+        for order in ((0, 1, 2), (1, 0, 2), (2, 1, 0)):
+            mixed = [pool[order[s % 3]] for s in range(nseq)]
+            if all(max(r[s] for r in trace) < 10 for s in range(nseq)):
+                mal = Alignment(mixed, np.array(trace, dtype=np.int64))
+                want_sym = [[str(mixed[s])[r[s]] if r[s] != -1 else None for r in trace] for s in range(nseq)]
+                got_sym = get_symbols(mal)
+                if [[x for x in r] for r in got_sym] != want_sym:
+                    return f"get_symbols with rows over different alphabets (order {order}): {got_sym} vs {want_sym}"
+                if mal.get_gapped_sequences() != ["".join(x if x is not None else "-" for x in r) for r in want_sym]:
+                    return f"gapped sequences with rows over different alphabets (order {order})"
+                if get_codes(mal).tolist() != [[int(mixed[s].code[r[s]]) if r[s] != -1 else -1 for r in trace] for s in range(nseq)]:
+                    return f"get_codes with rows over different alphabets (order {order})"
     # score: column-by-column recomputation
     mat = SubstitutionMatrix.std_nucleotide_matrix()
     sm = mat.score_matrix()
@@ -285,6 +301,12 @@ def check_fasta(cols, nseq, gapchars):
         return f"FASTA round trip trace {back.trace.tolist()} vs {trace}"
     if [str(s) for s in back.sequences] != [str(s) for s in seqs]:
         return "FASTA round trip sequences"
+    if extra:
+        # the gap characters may also be given as one string (each of its characters is a gap) or as a list
+        for form in ("".join(extra), list(extra)):
+            again = fasta.get_alignment(fasta.FastaFile.read(io.StringIO(text)), additional_gap_chars=form)
+            if again.trace.tolist() != trace or [str(s) for s in again.sequences] != [str(s) for s in seqs]:
+                return f"get_alignment(additional_gap_chars={form!r}): trace {again.trace.tolist()} vs {trace}"
     # an explicit sequence type is honoured for every row (the rows use letters that are also nucleotide codes)
     from biotite.sequence import ProteinSequence, NucleotideSequence
     for want_type in (ProteinSequence, NucleotideSequence):
